@@ -176,3 +176,7 @@ def r5_broadcast(ctx):
 
 
 RULES = [r1_r2_reduce, r4_batch_transform, r3_mean_std, r5_broadcast]
+
+from .C15 import r1_markers, r4_take  # noqa: E402  (batching relies on the markers; expand relies on take)
+
+RULES += [r1_markers, r4_take]
